@@ -110,6 +110,24 @@ func genInbox(r *Rng, prop string, k int) *RunSpec {
 	for i, n := 0, 1+r.Intn(3)/2+r.Intn(2)*r.Intn(2); i < n && i < 3; i++ {
 		actors = append(actors, embedActor(actorPool[p[i]]))
 	}
+	if r.Intn(6) == 0 {
+		// the same actor named twice (as IRI, or once embedded): a list, but still one actor
+		again := idOf(actors[r.Intn(len(actors))])
+		if r.Bool() {
+			actors = append(actors, again)
+		} else {
+			actors = append(actors, J{"type": "Person", "id": again})
+		}
+	}
+	if r.Intn(10) == 0 {
+		// an embedded actor of a type no vocabulary knows: it cannot be interpreted, so the activity cannot be authorized
+		robot := J{"type": "ext:Robot", "id": Pick(r, actorPool), "name": "unit"}
+		if r.Bool() {
+			actors = append(actors, robot)
+		} else {
+			actors = append([]interface{}{robot}, actors...)
+		}
+	}
 	actorIDs := idsOf(actors)
 	var f J
 	typ := Pick(r, []string{"Create", "Update", "Delete", "Follow", "Accept", "Reject", "Add", "Remove", "Like", "Announce", "Undo", "Block", "Listen"})
@@ -312,6 +330,17 @@ type ibModel struct {
 	noDefault bool     // 'other' replaces the default entirely
 	blocked   bool
 	blockArg  []string
+	actorUnusable bool // an embedded actor that cannot be interpreted: the request may be refused before the block check, never authorized without that actor being checked
+}
+
+func knownTypeName(t string) bool {
+	for _, x := range asTypes {
+		if x == t {
+			return true
+		}
+	}
+	_, ok := extTypes[t]
+	return ok
 }
 
 func sameHost(a, b string) (same bool, caseOnly bool) {
@@ -331,6 +360,13 @@ func buildInboxModel(res *Result, body J, me *ActorDir, srv *ServerSpec) *ibMode
 	ownedBy := func(id string) bool { _, ok := before[id]; return ok && hostOf(id) == srv.Host }
 	objs := aslist(body["object"])
 	m.blockArg = idsOf(body["actor"])
+	for _, a := range aslist(body["actor"]) {
+		if am, ok := a.(map[string]interface{}); ok {
+			if ts, _ := am["type"].(string); ts != "" && !knownTypeName(ts) {
+				m.actorUnusable = true
+			}
+		}
+	}
 	for _, b := range srv.Blocked {
 		if contains(m.blockArg, b) {
 			m.blocked = true
@@ -600,7 +636,12 @@ func oracleInboxOne(c *DriveCtx, res *Result, t *Task) {
 			firstSide = e.Seq
 		}
 	}
-	if blockedEv == nil {
+	if blockedEv == nil && m.actorUnusable {
+		if ok200 || firstSide >= 0 {
+			s.violate("C06", "uninterpretable-actor-accepted", site, fmt.Sprintf("an actor that cannot be interpreted was neither checked nor refused: status %d err=%v, first side effect at %d", t.Rec.Status, t.Err, firstSide))
+		}
+		return
+	} else if blockedEv == nil {
 		s.violate("C06", "block-check-missing", site, "the application's block check was never asked")
 	} else {
 		arg, _ := normalise(blockedEv.Arg).([]interface{})
@@ -800,7 +841,21 @@ func oracleInboxOne(c *DriveCtx, res *Result, t *Task) {
 				wantIn = append(wantIn, idOf(d["inbox"]))
 			}
 		}
-		if !sameSet(autos[0].Recipients, wantIn) {
+		// an actor named twice is fetched twice; an injected failure hits one of the two fetches and the other answer is as good
+		wantLenient := append([]string(nil), wantIn...)
+		for _, aID := range m.wireTo {
+			if _, fate := docFor(res, aID); fate != "ok" && res.faultedDeref[aID] {
+				for _, d := range s.World.Derefs {
+					if d.Task == t.ID && d.IRI == aID && d.Res == "ok" {
+						if doc, ok := res.Spec.World.remoteDoc(aID); ok {
+							wantLenient = append(wantLenient, idOf(doc["inbox"]))
+						}
+						break
+					}
+				}
+			}
+		}
+		if !sameSet(autos[0].Recipients, wantIn) && !sameSet(autos[0].Recipients, wantLenient) {
 			s.violate("C04", "auto-response-recipients", site, fmt.Sprintf("automatic %s delivered to %v; the follow actors' inboxes are %v", m.wire, autos[0].Recipients, wantIn))
 		}
 	}
